@@ -26,7 +26,7 @@ theorem write_arr_chars (cfg : Cfg) (a n b pos) :
 
 theorem write_arr_list (cfg : Cfg) (e n vs pos) :
     write cfg (.arr e (.fixed n)) (.list vs) pos =
-      if (e.size cfg).isSome ∧ vs.length ≠ n then .error .arraySize else writeN cfg e vs pos := by
+      if vs.length ≠ n then .error .arraySize else writeN cfg e vs pos := by
   rw [write.eq_def]
   cases e with
   | sc s a => cases s <;> rfl
